@@ -16,8 +16,10 @@ RULE = ("all directed include graphs over 3 files with <= 2 includes each (chain
         "directories, relative names with '..', current directory different from every file's directory; directory "
         "arrangements over 2-4 files in which named files are absent next to their includer and the name as written exists "
         "with other content under the current directory / the root file's directory / the includer's includer's directory "
-        "(expected: inlined parse, cycle chain, or failure to open); non-trivial = at least one include; distinct = distinct "
-        "graph+placement / distinct file table")
+        "(expected: inlined parse, cycle chain, or failure to open); histories of 3-5 files through 3-6 parses in one process, "
+        "each step editing one or two files (values, include targets, removal, creation) and leaving the others untouched on "
+        "disk, every parse judged against the files as they are then; non-trivial = at least one include; distinct = distinct "
+        "graph+placement / distinct file table / distinct history prefix")
 ASSUMPTIONS = ["no symbolic links in the scratch tree"]
 DIRS = ["", "sub", "sub/deep", "other"]
 
@@ -193,6 +195,11 @@ def run(ctx):
             if ctx.time_left() < 20:
                 break
             mixed_round(rng, ctx, base, cases, reqs, impls)
+        # histories: several parses in this process over files of which only some are edited in between
+        for _ in range(ctx.scale(350, 6000, 1500)):
+            if ctx.time_left() < 18:
+                break
+            history_round(rng, ctx, base, cases, reqs, impls)
     finally:
         os.chdir(cwd)
         shutil.rmtree(base, ignore_errors=True)
@@ -218,6 +225,51 @@ def inline_fs(fs, path, stack, by=None):
         else:
             out.append(line + "\n")
     return "".join(out)
+
+
+def expected_fs(fs, root):
+    """what textual inlining over the file table gives: ("acyclic", text) | ("cycle", chain) | ("missing", Missing)"""
+    try:
+        return "acyclic", inline_fs(fs, root, [])
+    except Cycle as c:
+        return "cycle", c.chain
+    except Missing as m:
+        return "missing", m
+
+
+def judge_fs(fs, root, base, cwdir, kind, want, note=""):
+    """the property on the real library for one parse of `root` over the files AS THEY ARE NOW (`fs` is the table of
+    what is on disk): the parse of the inlined text, the cycle error with the exact chain, or - when a name has no file
+    next to its includer - failure to open it.  Returns the failure text or None."""
+    err = got = None
+    try:
+        got = freephil.parse(file_name=root, process_includes=True)
+    except BaseException as e:
+        err = e
+    if kind == "cycle":
+        if err is None:
+            return "include cycle %r not detected" % ([os.path.relpath(p, base) for p in want],)
+        if type(err) is not RuntimeError or not str(err).startswith("Include dependency cycle: "):
+            return "cycle raised %s: %s" % (type(err).__name__, str(err)[:100])
+        chain = str(err)[len("Include dependency cycle: "):].split(", ")
+        if chain != want:
+            return "reported chain %r, expected %r" % (chain, want)
+        return None
+    if kind == "missing":
+        where = "%s (named in %s)" % (os.path.relpath(want.path, base),
+                                      os.path.relpath(want.by, base) if want.by else "the call")
+        if err is None:
+            return ("no file %s, so the include cannot be inlined, but the parse succeeded with %r (current directory %s)"
+                    % (where, got.as_str()[:120], os.path.relpath(cwdir, base)))
+        if not isinstance(err, OSError):
+            return "no file %s: raised %s: %s instead of failing to open it" % (where, type(err).__name__, str(err)[:100])
+        return None
+    if err is not None:
+        return "acyclic includes raised %s: %s" % (type(err).__name__, str(err)[:100])
+    d = _lay.first_diff(_lay.sig(freephil.parse(input_string=want)), _lay.sig(got))
+    if d:
+        return "tree differs from the parse of the inlined text at %s%s" % (d, note)
+    return None
 
 
 def arrangement_round(rng, ctx, base, cases, reqs, impls):
@@ -281,46 +333,14 @@ def arrangement_round(rng, ctx, base, cases, reqs, impls):
                 "files": {os.path.relpath(p, base): t for p, t in sorted(fs.items())},
                 "absent": [os.path.relpath(paths[i], base) for i in range(n) if absent[i]]}
         ctx.case(("arrangement", tuple(sorted(fs.items()))))
-        want_text = want_cycle = want_missing = None
-        try:
-            want_text = inline_fs(fs, root, [])
-        except Cycle as c:
-            want_cycle = c.chain
-        except Missing as m:
-            want_missing = m
-        ctx.count("arr_" + ("cycle" if want_cycle else "missing" if want_missing else "acyclic"))
+        kind, want = expected_fs(fs, root)
+        ctx.count("arr_" + kind)
         ctx.count("arr_lookalikes", nd)
-        if want_missing is not None:
+        if kind == "missing":
             for label in ("cwd", "rootdir", "grandparent"):
-                if (want_missing.by, want_missing.path, label) in alike:
+                if (want.by, want.path, label) in alike:
                     ctx.count("arr_missing_with_lookalike_in_" + label)
-        err = got = None
-        try:
-            got = freephil.parse(file_name=root, process_includes=True)
-        except BaseException as e:
-            err = e
-        f = None
-        if want_cycle:
-            if err is None:
-                f = "include cycle %r not detected" % ([os.path.relpath(p, base) for p in want_cycle],)
-            elif type(err) is not RuntimeError or not str(err).startswith("Include dependency cycle: "):
-                f = "cycle raised %s: %s" % (type(err).__name__, str(err)[:100])
-            elif str(err)[len("Include dependency cycle: "):].split(", ") != want_cycle:
-                f = "reported chain %r, expected %r" % (str(err)[len("Include dependency cycle: "):].split(", "), want_cycle)
-        elif want_missing is not None:
-            where = "%s (named in %s)" % (os.path.relpath(want_missing.path, base),
-                                          os.path.relpath(want_missing.by, base) if want_missing.by else "the call")
-            if err is None:
-                f = ("no file %s, so the include cannot be inlined, but the parse succeeded with %r (current directory %s)"
-                     % (where, got.as_str()[:120], os.path.relpath(cwdir, base)))
-            elif not isinstance(err, OSError):
-                f = "no file %s: raised %s: %s instead of failing to open it" % (where, type(err).__name__, str(err)[:100])
-        elif err is not None:
-            f = "acyclic includes raised %s: %s" % (type(err).__name__, str(err)[:100])
-        else:
-            d = _lay.first_diff(_lay.sig(freephil.parse(input_string=want_text)), _lay.sig(got))
-            if d:
-                f = "tree differs from the parse of the inlined text at %s (look-alike files under other directories)" % d
+        f = judge_fs(fs, root, base, cwdir, kind, want, " (look-alike files under other directories)")
         if f:
             ctx.fail(case, f)
         ia = call_j(lambda: freephil.parse(file_name=root, process_includes=True),
@@ -330,6 +350,143 @@ def arrangement_round(rng, ctx, base, cases, reqs, impls):
         impls.append(ia)
     finally:
         for pth in written:
+            try:
+                os.remove(pth)
+            except OSError:
+                pass
+
+
+def version_text(base, i, targets, placement, rng, ver):
+    """text number `ver` of file i: the shape of contents(), with values (and sometimes the number of lines, an attribute,
+    an extra definition) depending on the version - successive versions of a file differ, at equal or different size"""
+    lines = ["a%d = %d" % (i, ver % 10)]
+    if ver % 3 == 2:
+        lines.append("  .help = version %d" % ver)
+    for k, j in enumerate(targets):
+        inc = "include file %s" % rel(base, i, j, rng)
+        if placement[k]:
+            lines += ["s%d_%d {" % (i, k), "  x = %d" % ((k + ver) % 10), "  " + inc, "  y = %d" % k, "}"]
+        else:
+            lines.append(inc)
+        lines.append("b%d_%d = 'after %d v%d'" % (i, k, k, ver % 10))
+    if ver and rng.random() < 0.3:
+        lines.append("c%d = %d" % (i, ver))
+    return "\n".join(lines) + "\n"
+
+
+def apply_ops(base, ops, fs):
+    """carry out one step of a history on the disk and in the table of what is on disk; files not named stay untouched"""
+    for op in ops:
+        pth = os.path.normpath(os.path.join(base, op[1]))
+        if op[0] == "write":
+            os.makedirs(os.path.dirname(pth), exist_ok=True)
+            with open(pth, "w") as f:
+                f.write(op[2])
+            fs[pth] = op[2]
+        else:
+            os.remove(pth)
+            del fs[pth]
+
+
+def history_round(rng, ctx, base, cases, reqs, impls):
+    """The property speaks of the content of the named files, i.e. of the files AS THEY ARE WHEN THE PARSE RUNS, and a
+    process does not parse only once: a HISTORY is one set of files in several directories that lives through a sequence
+    of steps inside this process - step 0 writes the files, every later step edits SOME of them (new values at equal or
+    different size, other include targets - forward or back, so cycles come and go -, removal, creation of a file that
+    was absent) and leaves the others untouched on disk (not rewritten: same inode, time stamps and size) - and after
+    every step a file (mostly the same root, sometimes another member) is parsed with include processing.  Every parse is
+    judged against textual inlining over the table of what is on disk then (inlined parse / cycle chain / failure to
+    open), and goes to the model with that table: nothing of an earlier parse may show in a later one."""
+    n = rng.choice([3, 3, 4, 4, 5])
+    cwdir = os.getcwd()
+    paths = [file_path(base, i) for i in range(n)]
+    rels = [os.path.relpath(p, base) for p in paths]
+
+    def draw(i, p_forward):
+        k = rng.choice([1, 1, 2]) if i == 0 else rng.choice([0, 1, 1, 2]) if i + 1 < n else rng.choice([0, 0, 0, 1])
+        return tuple(rng.randrange(i + 1, n) if i + 1 < n and rng.random() < p_forward else rng.randrange(n)
+                     for _ in range(k))
+
+    def depths(root_i):
+        """include depth of every file reachable from the root over the files present"""
+        d, todo = {root_i: 0}, [root_i]
+        while todo:
+            i = todo.pop(0)
+            if paths[i] in fs:
+                for j in graph[i]:
+                    if j not in d:
+                        d[j] = d[i] + 1
+                        todo.append(j)
+        return d
+
+    graph = [draw(i, 0.85) for i in range(n)]
+    placement = [[rng.random() < 0.4 for _ in t] for t in graph]
+    ver = [0] * n
+    fs = {}
+    steps = []
+    for pth in [file_path(base, i) for i in range(8)]:
+        if os.path.exists(pth):
+            os.remove(pth)              # files of earlier rounds
+    try:
+        root_i = 0
+        for step in range(rng.randint(3, 6)):
+            ops, kinds, before = [], [], depths(root_i)
+            if step == 0:
+                for i in range(n):
+                    if i == 0 or rng.random() < 0.92:
+                        ops.append(["write", rels[i], version_text(base, i, graph[i], placement[i], rng, 0)])
+            else:
+                m = rng.choice([1, 1, 1, 2])
+                pool = list(range(1, n)) if rng.random() < 0.85 else list(range(n))
+                for i in rng.sample(pool, min(m, len(pool))):
+                    r = rng.random()
+                    if paths[i] not in fs:
+                        kinds.append("create")
+                    elif r < 0.12 and i > 0:
+                        kinds.append("remove")
+                        ops.append(["remove", rels[i]])
+                        continue
+                    elif r < 0.5:
+                        kinds.append("retarget")
+                        graph[i] = draw(i, 0.5)
+                        placement[i] = [rng.random() < 0.4 for _ in graph[i]]
+                    else:
+                        kinds.append("values")
+                    ver[i] += 1
+                    ops.append(["write", rels[i], version_text(base, i, graph[i], placement[i], rng, ver[i])])
+            apply_ops(base, ops, fs)
+            present = [i for i in range(n) if paths[i] in fs]
+            root_i = 0 if 0 in present and rng.random() < 0.85 else rng.choice(present)
+            steps.append({"ops": ops, "root": rels[root_i]})
+            root = paths[root_i]
+            case = {"history": True, "base": base, "cwd": os.path.relpath(cwdir, base), "steps": [dict(s) for s in steps]}
+            ctx.case(("history", repr(steps)))
+            kind, want = expected_fs(fs, root)
+            ctx.count("hist_parses")
+            ctx.count("hist_" + kind)
+            for k in kinds:
+                ctx.count("hist_edit_" + k)
+            if step:
+                after = depths(root_i)
+                edited = [rels.index(op[1]) for op in ops]
+                if any(min(before.get(i, 99), after.get(i, 99)) == 1 for i in edited):
+                    ctx.count("hist_edit_included_by_root")
+                if any(2 <= min(before.get(i, 99), after.get(i, 99)) < 99 for i in edited):
+                    ctx.count("hist_edit_at_include_depth_ge2")
+            f = judge_fs(fs, root, base, cwdir, kind, want,
+                         " (parse number %d of this history; edited in the last step: %s)"
+                         % (len(steps), ", ".join(op[1] for op in ops) if step else "-"))
+            ia = call_j(lambda: freephil.parse(file_name=root, process_includes=True),
+                        lambda r: [obj_j(o, with_ids=True, with_lines=True) for o in r.objects])
+            cases.append(case)
+            reqs.append(["expand", [[enc(p), enc(t)] for p, t in sorted(fs.items())], enc(root)])
+            impls.append(ia)
+            if f:
+                ctx.fail(case, "after %d step(s) on the files of one process: %s" % (step, f))
+                ctx.count("hist_failed")
+                break                   # the history up to here is the failing input
+    finally:
+        for pth in list(fs):
             try:
                 os.remove(pth)
             except OSError:
@@ -524,6 +681,114 @@ def include_scope_oracle():
     return "include scope differs from inlining the named scope at %s" % d if d else None
 
 
+_HIST_N = [0]
+
+
+def run_history(case, log=None):
+    """carry the steps of a history out again in a fresh directory tree (absolute names re-based) and judge every parse;
+    returns the list of per-step failures (None = as inlined), or None if the steps cannot be carried out"""
+    old = case["base"]
+    _HIST_N[0] += 1
+    base = "/var/tmp/verif-c13-replay-%d-%d" % (os.getpid(), _HIST_N[0])
+    cwd = os.getcwd()
+    out = []
+    try:
+        cwdir = os.path.join(base, case["cwd"])
+        os.makedirs(cwdir, exist_ok=True)
+        os.chdir(cwdir)
+        fs = {}
+        for k, step in enumerate(case["steps"]):
+            ops = [[op[0], op[1]] + [t.replace(old, base) for t in op[2:]] for op in step["ops"]]
+            try:
+                apply_ops(base, ops, fs)
+            except (OSError, KeyError):
+                return None
+            root = os.path.normpath(os.path.join(base, step["root"]))
+            kind, want = expected_fs(fs, root)
+            if kind == "acyclic":
+                try:
+                    freephil.parse(input_string=want)
+                except RuntimeError:
+                    return None         # (a shrinking candidate whose inlined text is no document)
+            f = judge_fs(fs, root, base, cwdir, kind, want)
+            if log is not None:
+                log.append("step %d: %s; parse %s: %s" % (k, ", ".join("%s %s" % (op[0], op[1]) for op in ops) or "-",
+                                                          step["root"], f or "as inlined (%s)" % kind))
+            out.append(f)
+    finally:
+        os.chdir(cwd)
+        shutil.rmtree(base, ignore_errors=True)
+    return out
+
+
+def shrink(f):
+    """for a failing history: fewer steps, fewer files / edits per step, fewer lines per file - every candidate is carried
+    out on real files and must still fail at its LAST parse while every earlier parse is as inlined"""
+    import time
+    case = f.get("case")
+    if not (isinstance(case, dict) and case.get("history")):
+        return f
+    t_end = time.time() + 15
+
+    def cls(msg):
+        return [k for k in ("not detected", "tree differs", "cycle raised", "reported chain", "no file", "raised", "")
+                if k in msg][0]
+
+    def fails(steps):
+        if time.time() > t_end:
+            return False
+        r = run_history(dict(case, steps=steps))
+        return bool(r) and r[-1] is not None and cls(r[-1]) == cls(f["what"]) and all(x is None for x in r[:-1])
+    steps = [{"ops": [list(op) for op in st["ops"]], "root": st["root"]} for st in case["steps"]]
+    if not fails(steps):
+        return f
+    changed = True
+    while changed:
+        changed = False
+        for k in range(len(steps) - 2, -1, -1):                     # drop a whole step (never the last)
+            cand = steps[:k] + steps[k + 1:]
+            if fails(cand):
+                steps, changed = cand, True
+        for k in range(len(steps)):                                  # drop one edit of a step
+            j = 0
+            while j < len(steps[k]["ops"]):
+                cand = [dict(st, ops=st["ops"][:j] + st["ops"][j + 1:]) if i == k else st for i, st in enumerate(steps)]
+                if fails(cand):
+                    steps, changed = cand, True
+                else:
+                    j += 1
+        for k in range(len(steps)):                                  # drop lines of a written text
+            for j, op in enumerate(steps[k]["ops"]):
+                if op[0] != "write":
+                    continue
+                lines = op[2].split("\n")[:-1]
+                a = 0
+                while a < len(lines):
+                    t = "".join(x + "\n" for x in lines[:a] + lines[a + 1:])
+                    cand = [dict(st, ops=st["ops"][:j] + [["write", op[1], t]] + st["ops"][j + 1:]) if i == k else st
+                            for i, st in enumerate(steps)]
+                    if fails(cand):
+                        steps, changed = cand, True
+                        lines = lines[:a] + lines[a + 1:]
+                        op = steps[k]["ops"][j]
+                    else:
+                        a += 1
+    small = dict(case, steps=steps)
+    r = run_history(small)
+    g = dict(f)
+    g["case"] = small
+    g["what"] = "after %d step(s) on the files of one process: %s [history shrunk; generated one in 'original_case']" % (
+        len(steps) - 1, r[-1])
+    g["original_case"] = case
+    return g
+
+
 def replay(payload):
-    print(payload["failure"])
-    return False
+    case = payload["failure"].get("case") if isinstance(payload.get("failure"), dict) else None
+    if not (isinstance(case, dict) and case.get("history")):
+        print(payload["failure"])
+        return False
+    log = []
+    r = run_history(case, log)
+    print("\n".join(log))
+    return r is not None and all(x is None for x in r)
